@@ -12,7 +12,30 @@ write_column(f, data0, selement, compression, datapage_version, stats)      [run
   (H header bytes, C stored payload bytes, U plain payload bytes, N nulls, V values of the pages so far), proved on entry and after the body.
 make_row_group(f, data, schema, compression, stats)   write_column by its contract; loop over an abstract schema
 iter_dataframe(data, row_group_offsets)               generator; list(range(0, n, c)) and explicit offset lists by an abstract model
-Obligation names: see the `detail` text of each (evidence) and the final report of the module docstring's author.
+Execution: the WHOLE of write_column is executed (nothing dropped).  Phase A runs the prologue on every path up to the page loop; the
+paths are joined at the loop head (common path-condition conjuncts and variables kept, differing ones - max / min / stats of the
+statistics block - made arbitrary); phase B runs loop + epilogue on the joined state.  Paths with the same ghost state are merged at
+the join of each `if` (ints / bools exactly by if-then-else, pandas objects to an arbitrary opaque value).
+
+Obligations (prefix write_column[v1|v2].):
+  page_tiling.{first_page_starts_at_row_0, last_page_ends_at_len_data0, pages_adjacent, every_page_has_rows_and_is_inside, no_page_iff_no_rows}
+  page_loop.invariant_on_entry[..] / invariant_preserved[..] (13 conjuncts, named)   page_loop.encoding_fixed_after_first_data_page
+  page.{every_byte_belongs_to_a_page, exactly_one_data_page_per_tile, rows_are_the_tile}
+  page.<kind>.{compressed_page_size_is_bytes_after_header, uncompressed_page_size_is_plain_length}  kind in data_page_v1, data_page_v2, dictionary_page
+  page.dictionary_page.is_first_and_only    page.data_page_v*.num_values_is_rows_of_page
+  page.data_page_v2.{num_rows_is_num_values, num_nulls_is_nulls_of_page, level_lengths_describe_the_bytes}
+  colmeta.{total_compressed_size_is_chunk_bytes, total_uncompressed_size_is_headers_plus_plain, num_values_is_len_data0_is_sum_of_pages,
+           data_page_offset_is_first_data_page_header, dictionary_page_offset_iff_dictionary_page, encodings_are_the_page_encodings,
+           encoding_stats_counts_and_encodings, encoding_stats_page_type}     chunk.file_offset_is_column_chunk_start
+  statistics.null_count_is_missing_cells
+  page.payload_codec_is_colmeta_codec, data_page_v2.values_codec_is_colmeta_codec_iff_is_compressed  (+ "[compression is not a dict lacking 'type']")
+     posed over (page of an arbitrary iteration, exit state) pairs: both sides only depend on the loop-invariant `compression` argument
+make_row_group.{empty_frame_returns_None_without_writing, nonempty_frame_returns_a_row_group, rg.num_rows_is_len_data,
+  rg.total_byte_size_is_sum_of_total_uncompressed_size, rg.columns_are_the_chunks_in_schema_order, one_chunk_per_typed_schema_element_in_schema_order,
+  chunk_num_values_is_num_rows, schema_loop.invariant_*}
+iter_dataframe[int|None|list].{chunk.one_slice_per_offset, chunk.starts_at_its_offset_first_at_0, chunk.slices_adjacent_last_open_ended,
+  chunk.slices_ordered, zero_offsets_yield_the_whole_frame, no_slice_outside_the_loop, does_not_raise (only if a raising path exists)}
+Known findings on the unchanged tree (contracts/findings.jsonl): C02-P-codec-dict-compression-without-type, C02-P-encoding-stats-page-type-v2.
 """
 import ast
 import itertools
@@ -357,6 +380,7 @@ class ILoc:
         # instances of the assumed facts about NULLS at this slice
         p.pc += [NULLS(a, b) >= 0, NULLS(a, b) <= b - a, NULLS(W.zero, a) + NULLS(a, b) == NULLS(W.zero, b),
                  z3.Implies(z3.Not(W.optional), NULLS(a, b) == 0)]
+        p.ghost["iloc_slices"] = p.ghost.get("iloc_slices", []) + [(a, b)]
         return Custom(Series(W, a, b))
 
 
@@ -983,7 +1007,7 @@ class ZipPairs:
                 else:
                     q.env[v] = Opaque(f"havoc_{v}!{next(_cnt)}")
             W.fs.set_pos(q, fresh_int("havoc_file_pos"))
-            q.ghost["pages"], q.ghost["orphans"] = [], []
+            q.ghost["pages"], q.ghost["orphans"], q.ghost["iloc_slices"] = [], [], []
             q.pc += [g for _, g in invariant(eng, q, W, S, self)]
             q.ghost["sums"] = S
             return S
@@ -1029,6 +1053,9 @@ class ZipPairs:
         ob("exactly_one_data_page_per_tile", z3.BoolVal(S1["n_data_this_log"] == 1),
            "each (row_start, row_end) pair of the tiling produces exactly one data page")
         a_, b_ = page
+        sl = r.ghost.get("iloc_slices", [])
+        ob("rows_are_the_tile", z3.And(z3.BoolVal(len(sl) == 1), *[z3.And(x == a_, y == b_) for x, y in sl]),
+           "the rows encoded into this page are exactly data0.iloc[row_start:row_end] of the tiling")
         S1["N"] = S["N"] + NULLS(a_, b_)
         enc1 = r.env.get("encoding")
         penc_this = S1.get("penc_this", z3.IntVal(-1))
@@ -1073,6 +1100,20 @@ def h_getattr(eng, p, args, kw, node):
     raise Unsupported("getattr shape")
 
 
+CODEC = {"UNCOMPRESSED": 0, "SNAPPY": 1, "GZIP": 2, "LZO": 3, "BROTLI": 4, "LZ4": 5, "ZSTD": 6, "LZ4_RAW": 7}
+
+
+def h_upper(eng, p, args, kw, node):
+    """<str literal>.upper() of a codec name (e.g. the default 'gzip'): its number in parquet_thrift.CompressionCodec"""
+    o = args[0]
+    if isinstance(o, Str) and len(args) == 1:
+        if o.s.upper() not in CODEC:
+            raise Unsupported(f"{o.s!r}.upper() is not a codec name")
+        return [(p, Custom(UpStr(z3.IntVal(CODEC[o.s.upper()]))))]
+    eng.check_untracked(args[1:], kw, ".upper", node)
+    return [(p, Opaque(("call", ".upper", next(eng.counter))))]
+
+
 def wc_handlers(W):
     def h_rows_per_page(eng, p, args, kw, node):
         return [(p, PyI(W.rpp))]
@@ -1112,7 +1153,7 @@ def wc_handlers(W):
         return [(p, PyI(k))]
 
     return {"_rows_per_page": h_rows_per_page, "range": h_range, "zip": h_zip, "make_definitions": h_make_definitions,
-            "compress_data": h_compress, "write_thrift": h_write_thrift, "getattr": h_getattr}
+            "compress_data": h_compress, "write_thrift": h_write_thrift, "getattr": h_getattr, ".upper": h_upper}
 
 
 def discharge_qf(obligs, timeout):
@@ -1628,6 +1669,8 @@ def run_make_row_group(ctx, funcs, timeout):
     p = Path()
     p.pc += [R.rows >= 0, R.M >= 0, R.pos0 >= 0]
     R.fs.init(p, R.pos0)
+    if solve(list(p.pc), timeout)[0] == REFUTED:
+        ctx.vacuity["requires_sat"] += 1
     try:
         outs = eng.run("make_row_group", p, [Custom(R.fs), Custom(Frame(R.rows)), Custom(Schema(R))],
                        {"compression": Opaque("compression"), "stats": Opaque("stats")})
@@ -1786,6 +1829,8 @@ def run_iter_dataframe(ctx, funcs, timeout):
         eng = BEngine(funcs=funcs, handlers={"range": h_range_off}, opaque_calls=True)
         p = Path()
         p.pc += [N >= 0] + pre
+        if solve(list(p.pc) + (lst.facts(z3.Int('i0')) if name == 'list' else []), timeout)[0] == REFUTED:
+            ctx.vacuity["requires_sat"] += 1
         try:
             outs = eng.run("iter_dataframe", p, [Custom(FrameI(N)), arg])
         except Unsupported as ex:
